@@ -98,6 +98,11 @@ class Writer:
     def __init__(self, cfg: Cfg):
         self.cfg = cfg
         self.appended = b""
+        self.records = []     # one dict per data array written: name, vtk_type, ncomp, fmt, payload, text | offset
+
+    def _record(self, **kw):
+        if hasattr(self, "records"):
+            self.records.append(kw)
 
     def data_array(self, name, vtk_type, ncomp, values, indent="        ", extra=""):
         cfg = self.cfg
@@ -107,9 +112,11 @@ class Writer:
         payload = raw_bytes(vtk_type, values, cfg.byte_order)
         if cfg.fmt == "binary":
             txt = encode_binary(cfg, payload, True).decode("ascii")
+            self._record(name=name, vtk_type=vtk_type, ncomp=ncomp, fmt="binary", payload=payload, text=txt.encode())
             return f'{indent}<DataArray {attrs} format="binary">\n{indent}  {txt}\n{indent}</DataArray>\n'
         off = len(self.appended)
         self.appended += encode_binary(cfg, payload, cfg.fmt == "appended-base64")
+        self._record(name=name, vtk_type=vtk_type, ncomp=ncomp, fmt=cfg.fmt, payload=payload, offset=off)
         return f'{indent}<DataArray {attrs} format="appended" offset="{off}"/>\n'
 
     def file_attrs(self, vtk_type_name):
